@@ -46,11 +46,19 @@ def run(job: dict, state: dict, child) -> dict:  # noqa: ANN001
 
     # --- memo on the griffe loader used by the parser module (falls back to real loads if the name is gone)
     load_memo: dict = {}
-    memo_state = {"installed": False, "hits": 0}
+    memo_state = {"installed": False, "hits": 0, "where": None}
     try:
         import safeds_stubgen.docstring_parsing._docstring_parser as dp
 
-        inner_load = dp.load
+        if hasattr(dp, "load"):
+            inner_load = dp.load
+            memo_state["where"] = "parser-module"
+        else:
+            # the parser module calls `griffe.load(...)` through the griffe package: memoise it there
+            import griffe as _griffe
+
+            inner_load = _griffe.load
+            memo_state["where"] = "griffe-package"
 
         def memo_load(*args, **kwargs):  # noqa: ANN002, ANN003, ANN202
             k = repr((args, sorted(kwargs.items(), key=lambda kv: kv[0])))
@@ -117,7 +125,12 @@ def run(job: dict, state: dict, child) -> dict:  # noqa: ANN001
     state["active"] = False  # the rest is pure in-memory querying: no seams needed (and the livelock probe must not count)
 
     if dp is not None and memo_load is not None:
-        dp.load = memo_load
+        if memo_state["where"] == "parser-module":
+            dp.load = memo_load
+        else:
+            import griffe as _griffe
+
+            _griffe.load = memo_load
 
     def new_parser():  # noqa: ANN202
         return real_factory(style=ctx["style"], package_path=ctx["package_path"])
@@ -128,6 +141,11 @@ def run(job: dict, state: dict, child) -> dict:  # noqa: ANN001
         queries.setdefault(rec["key"], rec)
     refs: dict[str, object] = {}
     excluded = 0
+    if not memo_state["installed"] and len(queries) > 60:
+        # every cold reference costs a real griffe load: keep a seeded sample of the queries (the rest is not judged)
+        keep = set(random.Random(job.get("history_seed", 0)).sample(sorted(queries), 60))
+        queries = {k: q for k, q in queries.items() if k in keep}
+        res["stats"]["sampled_queries_without_memo"] = 60
     for k, q in queries.items():
         try:
             refs[k] = getattr(new_parser(), q["method"])(*q["args"], **q["kwargs"])
@@ -135,7 +153,7 @@ def run(job: dict, state: dict, child) -> dict:  # noqa: ANN001
             excluded += 1
     keys = sorted(refs)
     res["stats"].update({"recorded_queries": len(recorded), "distinct_queries": len(queries), "reference_raised_excluded": excluded,
-                         "load_memo_installed": memo_state["installed"], "by_method": {}})
+                         "load_memo_installed": memo_state["installed"], "load_memo_where": memo_state["where"], "by_method": {}})
     for k in keys:
         m = queries[k]["method"]
         res["stats"]["by_method"][m] = res["stats"]["by_method"].get(m, 0) + 1
